@@ -237,10 +237,19 @@ theorem link_step (w : World) (g : Nat) (anchor : Option Nat) (n : Nat) (ha : no
     · simp
     · exact hm'
 
-theorem nodes_graphAppend (w : World) (g n : Nat) (ha : nodeAddable w g n = true) :
+theorem guardOp_fst (bad : Bool) (kind : String) (w w' : World) (h : bad = false) :
+    (guardOp bad kind w w').1 = w' := by
+  unfold guardOp; simp [h]; split <;> rfl
+
+theorem addable_of_acceptable {w : World} {g n : Nat} (h : nodeAcceptable w g n = true) :
+    nodeAddable w g n = true := by
+  simp [nodeAcceptable] at h; exact h.1
+
+theorem nodes_graphAppend (w : World) (g n : Nat) (ha : nodeAcceptable w g n = true) :
     ((graphAppend w g n).1.gr g).nodes = (seqApply (w.gr g).nodes (.append n)).1 := by
-  simp only [graphAppend, guardOp, ha, seqApply]
-  exact (link_step w g _ n ha).1
+  unfold graphAppend
+  rw [guardOp_fst _ _ _ _ (by simp [ha])]
+  exact (link_step w g _ n (addable_of_acceptable ha)).1
 
 theorem nodes_extendMut (g : Nat) : ∀ (ns : List Nat) (w : World), (∀ n ∈ ns, nodeAddable w g n = true) →
     ((extendMut w g ns).gr g).nodes = ns.foldl (fun l v => linkAfter l l.getLast? v) (w.gr g).nodes
@@ -252,10 +261,11 @@ theorem nodes_extendMut (g : Nat) : ∀ (ns : List Nat) (w : World), (∀ n ∈ 
     simp only [extendMut] at this
     rw [this, h1]
 
-theorem nodes_graphExtend (w : World) (g : Nat) (ns : List Nat) (ha : ns.all (nodeAddable w g) = true) :
+theorem nodes_graphExtend (w : World) (g : Nat) (ns : List Nat) (ha : ns.all (nodeAcceptable w g) = true) :
     ((graphExtend w g ns).1.gr g).nodes = (seqApply (w.gr g).nodes (.extend ns)).1 := by
-  simp only [graphExtend, guardOp, ha, seqApply]
-  exact nodes_extendMut g ns w (by simpa using ha)
+  unfold graphExtend
+  rw [guardOp_fst _ _ _ _ (by simp [ha])]
+  exact nodes_extendMut g ns w (fun n hn => addable_of_acceptable ((List.all_eq_true.1 ha) n hn))
 
 theorem nodes_linkMany (g : Nat) : ∀ (ns : List Nat) (w : World) (anchor : Option Nat),
     (∀ n ∈ ns, nodeAddable w g n = true) →
@@ -268,25 +278,29 @@ theorem nodes_linkMany (g : Nat) : ∀ (ns : List Nat) (w : World) (anchor : Opt
     rw [this, h1]
 
 theorem nodes_graphInsertAfter (w : World) (hw : I_node w) (g a : Nat) (ns : List Nat)
-    (ha : (w.node a).graph = some g) (hns : ns.all (nodeAddable w g) = true) :
+    (ha : (w.node a).graph = some g) (hns : ns.all (nodeAcceptable w g) = true) :
     ((graphInsertAfter w g a ns).1.gr g).nodes = (seqApply (w.gr g).nodes (.insertAfter a ns)).1 := by
   have hmem : a ∈ (w.gr g).nodes := (hw.mem a g).1 ha
-  simp only [graphInsertAfter, guardOp, seqApply, hmem, if_true]
-  simp [ha, hns]
-  exact nodes_linkMany g ns w _ (by simpa using hns)
+  unfold graphInsertAfter
+  rw [guardOp_fst _ _ _ _ (by simp [ha, hns])]
+  simp only [seqApply, hmem, if_true]
+  exact nodes_linkMany g ns w _ (fun n hn => addable_of_acceptable ((List.all_eq_true.1 hns) n hn))
 
 theorem nodes_graphInsertBefore (w : World) (hw : I_node w) (g a : Nat) (ns : List Nat)
-    (ha : (w.node a).graph = some g) (hns : ns.all (nodeAddable w g) = true) :
+    (ha : (w.node a).graph = some g) (hns : ns.all (nodeAcceptable w g) = true) :
     ((graphInsertBefore w g a ns).1.gr g).nodes = (seqApply (w.gr g).nodes (.insertBefore a ns)).1 := by
   have hmem : a ∈ (w.gr g).nodes := (hw.mem a g).1 ha
-  simp only [graphInsertBefore, guardOp, seqApply, hmem, if_true]
-  simp [ha, hns]
-  exact nodes_linkMany g ns w _ (by simpa using hns)
+  unfold graphInsertBefore
+  rw [guardOp_fst _ _ _ _ (by simp [ha, hns])]
+  simp only [seqApply, hmem, if_true]
+  exact nodes_linkMany g ns w _ (fun n hn => addable_of_acceptable ((List.all_eq_true.1 hns) n hn))
 
 /-- removing one node (`Graph.remove(n)`, not `safe`) -/
 theorem nodes_graphRemove_one (w : World) (hw : I_node w) (g n : Nat) (ha : (w.node n).graph = some g) :
     ((graphRemove w g [n] false).1.gr g).nodes = (seqApply (w.gr g).nodes (.remove n)).1 := by
   have hmem : n ∈ (w.gr g).nodes := (hw.mem n g).1 ha
-  simp [graphRemove, guardOp, seqApply, hmem, ha, nodeUnlink]
+  unfold graphRemove
+  rw [guardOp_fst _ _ _ _ (by simp [ha])]
+  simp [seqApply, hmem, ha, nodeUnlink, dedup]
 
 end IrVerif.Kernel
